@@ -101,6 +101,10 @@ def softmax_vec(logits, label='theta'):
         return list(cache[key])
     th = [p.fresh(label, z3.RealSort()) for _ in range(n)]
     cache[key] = th
+    # remembered so that arg-max over the result can be decided on the logits (softmax is strictly order preserving)
+    org = p.__dict__.setdefault('softmax_origin', {})
+    for i, t in enumerate(th):
+        org[t.get_id()] = (key, i, lg0)
     ax = [t > 0 for t in th]
     ax.append(z3.Sum(th) == 1 if n > 1 else th[0] == 1)
     lg = [to_real(x) if is_sym(x) else z3.RealVal(fractions.Fraction(x)) for x in logits]
